@@ -533,25 +533,7 @@ func Simulate(c *core.Ctx, mode, fam string, num, depth int, rng *rand.Rand) [][
 	if err != nil || r.Violated != "" || r.ErrText != "" || r.TimedOut {
 		core.Fatalf("session simulation (%s, %s) failed: %v %s\n%s", mode, fam, err, r.Brief(), core.Tail(r.Out, 2000))
 	}
-	sort.Strings(lines)
-	var maximal []string
-	for i, l := range lines {
-		if i+1 < len(lines) && (lines[i+1] == l || strings.HasPrefix(lines[i+1], l+",")) {
-			continue
-		}
-		maximal = append(maximal, l)
-	}
-	rng.Shuffle(len(maximal), func(i, j int) { maximal[i], maximal[j] = maximal[j], maximal[i] })
-	if len(maximal) > num {
-		maximal = maximal[:num]
-	}
-	var out [][]json.RawMessage
-	for _, l := range maximal {
-		var h []json.RawMessage
-		if json.Unmarshal([]byte(l+"]"), &h) == nil && len(h) > 0 {
-			out = append(out, h)
-		}
-	}
+	out := core.Behaviours(lines, num, rng)
 	c.Add("simulated_behaviours", int64(len(out)))
 	return out
 }
